@@ -153,6 +153,7 @@ TreeWhy(cfg, T, i) ==
        THEN (IF ~cfg.ms THEN "multisig-key-in-a-single-signature-wallet"
              ELSE IF k.depth # KeyDepth(TRUE, k.wt) THEN "depth-differs-from-path-length"
              ELSE IF toks # PosTokens(cfg, RowPos(k)) THEN "path-differs-from-documented-path"
+             ELSE IF k.purpose # Purpose(k.wt, TRUE) THEN "stored-purpose-differs-from-witness-type"
              ELSE "ok")
        ELSE IF k.depth # base + Len(toks) - 1 THEN "depth-differs-from-path-length"
        ELSE IF k.parent = 0 THEN (IF toks # <<IF cfg.watch THEN UpperM ELSE LowerM>> THEN "root-key-path" ELSE "ok")
@@ -163,6 +164,12 @@ TreeWhy(cfg, T, i) ==
             ELSE IF IsLeaf(cfg, k) /\ toks # PosTokens(kc, RowPos(k)) THEN "path-differs-from-documented-path"
             ELSE IF ~cfg.watch /\ k.depth = PubMasterDepth(cfg.ms, k.wt) /\ toks # AcctTokens(kc, Acct(k.net, k.wt, k.acct))
                  THEN "account-key-path-differs-from-documented-path"
+            \* the key of a chain (one level above the address keys): its stored account and change flag are those of its path
+            ELSE IF k.depth = KeyDepth(cfg.ms, k.wt) - 1 /\ k.depth > base /\ k.ch >= 0
+                    /\ toks # SubSeq(PosTokens(kc, [RowPos(k) EXCEPT !.idx = 0]), 1, Len(toks))
+                 THEN "chain-key-path-differs-from-its-stored-account-and-change"
+            \* the stored purpose is the one of the key's witness type
+            ELSE IF k.depth >= base + 1 /\ k.purpose # Purpose(k.wt, cfg.ms) THEN "stored-purpose-differs-from-witness-type"
             ELSE "ok"
 FirstBad(n, Why(_)) == IF \E i \in 1..n : Why(i) # "ok" THEN CHOOSE i \in 1..n : Why(i) # "ok" /\ \A j \in 1..(i - 1) : Why(j) = "ok" ELSE 0
 
@@ -202,11 +209,19 @@ JTrace(r) ==
         T   == r.keys
         tb  == FirstBad(Len(T), LAMBDA i : TreeWhy(cfg, T, i))
         rb  == FirstBad(Len(r.restored), LAMBDA i : RestoredWhy(cfg, T, r.restored[i]))
+        \* the table is the closure of what was asked for: an account key belongs to an account of the state, a chain key
+        \* has an address key of the state below it
+        Stray(k) == /\ k.kt # "multisig" /\ ~cfg.ms
+                    /\ \/ (~cfg.watch /\ k.depth = PubMasterDepth(FALSE, k.wt) /\ Acct(k.net, k.wt, k.acct) \notin f.s.accts)
+                       \/ (k.depth = KeyDepth(FALSE, k.wt) - 1 /\ k.ch >= 0
+                           /\ ~\E p \in f.s.keys : p.net = k.net /\ p.wt = k.wt /\ p.acct = k.acct /\ p.ch = k.ch)
+        sb  == FirstBad(Len(T), LAMBDA i : IF Stray(T[i]) THEN "stray" ELSE "ok")
         cb  == FirstBad(Len(r.cotrees), LAMBDA i : CoTreeWhy(cfg, r.cotrees[i], f.s.keys))
     IN IF f.v # "ok" THEN Verdict(f.v, f.devs, f.at, f.exp)
        ELSE IF {RowPos(T[i]) : i \in LeafRows(cfg, T)} # f.s.keys \/ Cardinality(LeafRows(cfg, T)) # Cardinality(f.s.keys)
             THEN Verdict("key-table-differs-from-issued-positions", <<>>, 0, <<>>)
        ELSE IF tb # 0 THEN Verdict(TreeWhy(cfg, T, tb), <<>>, T[tb].id, <<>>)
+       ELSE IF sb # 0 THEN Verdict("key-that-no-request-asked-for", <<>>, T[sb].id, <<>>)
        ELSE IF \E i, j \in 1..Len(T) : i < j /\ T[i].addr = T[j].addr THEN Verdict("two-keys-share-an-address", <<>>, 0, <<>>)
        ELSE IF rb # 0 THEN Verdict(RestoredWhy(cfg, T, r.restored[rb]), <<>>, rb, <<>>)
        ELSE IF cb # 0 THEN Verdict(CoTreeWhy(cfg, r.cotrees[cb], f.s.keys), <<>>, cb, <<>>)
